@@ -218,8 +218,8 @@ class NestedFrame(pd.DataFrame):
         if len(components) > 1:
             new_nested, field = components
             if isinstance(value, pd.Series):
-                value.name = field
-                value = value.to_frame()
+                # do not rename the caller's series
+                value = value.to_frame(name=field)
             new_df = self.add_nested(value, name=new_nested)
             self._update_inplace(new_df)
             return None
